@@ -745,10 +745,10 @@ def run(ck: Check) -> None:
         "only Python 3.12 executes the output; other target versions are generated and analysed but run on 3.12",
         "DataType.type_hint has been evaluated before DataType.imports is read (DataModelFieldBase.imports does so); is_func/kwargs and Field()/Annotated imports of the field classes are outside Model.Imports",
     ]
-    campaign_histories(ck, 250 if quick else 4000)
+    campaign_histories(ck, 400 if quick else 4000)
     campaign_prune(ck, 200 if quick else 3000)
-    campaign_type_imports(ck, 500 if quick else 4000, thorough=not quick)
-    campaign_e2e(ck, 220 if quick else 3000, 60 if quick else 800, 30 if quick else 300)
+    campaign_type_imports(ck, 800 if quick else 4000, thorough=not quick)
+    campaign_e2e(ck, 520 if quick else 3000, 140 if quick else 800, 60 if quick else 300)
     ck.search_hooks.append(search_after_break)
     known_findings(ck)
 
